@@ -102,7 +102,15 @@ FONTS = {
     "all-zt": font_spec(SYL, tones="12334-12335z"),
     "nosyl-zt": font_spec(None, tones="12334-12335z"),
     "all-nodc": font_spec(SYL, dotted=False),
+    # the two tone marks are two glyphs with their own advances: fonts that give them DIFFERENT width classes, both ways
+    "all-z1": font_spec(SYL, tones="12334z,12335"),          # U+302E zero-width, U+302F spacing
+    "all-z2": font_spec(SYL, tones="12334,12335z"),          # U+302E spacing, U+302F zero-width
+    "nosyl-z1": font_spec(None, tones="12334z,12335"),
+    "nosyl-z2": font_spec(None, tones="12334,12335z"),
+    "mix3-z1-nodc": font_spec(SYL + "%3=0", tones="12334z,12335", dotted=False),
+    "mix3-z2": font_spec(SYL + "%3=0", tones="12334,12335z"),
 }
+TONE_FONTS = ["all-z1", "all-z2", "nosyl-z1", "nosyl-z2", "mix3-z1-nodc", "mix3-z2", "all", "all-zt"]
 
 # ---------------------------------------------------------------------------------------------------
 # what the property promises for ONE syllable chunk (no claim -> None)
@@ -1025,6 +1033,84 @@ def tone_search(ctx, shim, r, n):
                          "comment block of the shaper (tone in front unless zero width; orphan gets a dotted circle)")
 
 
+def tone_mixed_texts(r, n):
+    """texts in which BOTH tone marks occur in one run (either order, also doubled), each after a syllable in any spelling
+    (precomposed LV / LVT, conjoining L V (T), LV + T, old Hangul), after a stray letter or jamo, or first in the text — so
+    the decision `tone mark before its syllable unless ITS glyph is zero-width` has to be taken per mark"""
+    out = []
+    for _ in range(n):
+        first = r.choice(TONES)
+        other = TONES[0] if first == TONES[1] else TONES[1]
+        marks = [first, other] + [r.choice(TONES) for _ in range(r.below(3))]
+        cps = []
+        for k, m in enumerate(marks):
+            l = r.range(L_BASE, L_BASE + L_COUNT - 1); v = r.range(V_BASE, V_BASE + V_COUNT - 1)
+            t = r.range(T_BASE + 1, T_BASE + T_COUNT - 1)
+            j = r.below(10)
+            if j == 0: cps += [compose(l, v)]
+            elif j == 1: cps += [compose(l, v, t)]
+            elif j == 2: cps += [l, v]
+            elif j == 3: cps += [l, v, t]
+            elif j == 4: cps += [compose(l, v), t]
+            elif j == 5: cps += [r.choice(OLD_L), r.choice(OLD_V)] + ([r.choice(OLD_T)] if r.chance(1, 2) else [])
+            elif j == 6: cps += [0x41]                       # orphan after a letter
+            elif j == 7: cps += [r.choice([l, v, t])]        # orphan after a lone jamo
+            elif j == 8: cps += [0x41, compose(l, v)]
+            else: pass                                       # orphan: first in the text / right after another tone mark
+            cps.append(m)
+            if r.chance(1, 5): cps.append(0x42)
+        out.append((cps[:16], 1 if r.chance(1, 6) else 0))
+    return out
+
+
+def promote_pre_disagreements(ctx, shim, dis, limit):
+    """A `hangul pre` request on which the crate and the model disagree is a candidate failing input of the property: its
+    text and its support spec are handed to shape() (public API, script Hang, the request's level and dotted-circle flag)
+    and judged by `spec_render`, the python rendering of the property — nothing is assumed about WHY the two disagreed."""
+    if not dis:
+        ctx.note_search("promoted-hangul-pre", 0, 0, rule="no hangul-pre disagreement to promote in this run")
+        return
+    cand = sorted(dis, key=lambda d: len(d["request"]))[:limit]
+    groups, meta = [], []
+    for i, d in enumerate(cand):
+        t = d["request"].split()
+        level, nodc, spec = int(t[2]), int(t[3]), t[4]
+        recs = [] if t[5] == "-" else [tuple(map(int, x.split(":"))) for x in t[5].split(",")]
+        cps = [c for c, _ in recs]; cls = [k for _, k in recs]
+        if not cps or any(c in OTHER_MARKS for c in cps) or any(c < 0x20 or 0xD800 <= c <= 0xDFFF for c in cps):
+            continue
+        fid = f"PP{i}"
+        groups.append([f"hangul font {fid} {spec}", shape_line(fid, level, 16 if nodc else 0, cps, cls)])
+        meta.append((d, Spec(spec), level, nodc, cps))
+    outs = vlib.run_groups(shim, groups, timeout=900)
+    n = nbad = 0
+    reported = ctx.__dict__.setdefault("_c12_reported", set())
+    for (d, sp, level, nodc, cps), grp, o in zip(meta, groups, outs):
+        n += 1
+        want = spec_render(cps, sp, nodc)
+        got = parse_shape(o[1])
+        wg = [sp.gid(c) for c, _ in want]
+        if got is not None and [g for g, _ in got] == wg:
+            continue
+        nbad += 1
+        fnd = "hangul-LV-T-without-LV-glyph" if text_in_finding_class(cps, sp.has) else None
+        key2 = fnd if fnd else ("promoted", nbad if nbad <= 3 else 0)
+        if key2 in reported: continue
+        reported.add(key2)
+        rp = {"stage": "search", "stream": "promoted-hangul-pre", "font_spec": grp[0].split()[3], "register": [grp[0]],
+              "request": grp[1], "observed": o[1], "text": fmt(cps), "expected_glyphs": wg,
+              "expected_code_points": fmt([c for c, _ in want]),
+              "from_correspondence": d["request"], "impl": d["impl"], "model": d["model"]}
+        if fnd: rp["finding"] = fnd
+        ctx.violation(f"promoted hangul-pre disagreement: text {fmt(cps)} level {level} nodc {nodc} on the font of the request "
+                      f"shapes to glyphs {None if got is None else [g for g, _ in got]}, the property promises {wg} "
+                      f"(= {fmt([c for c, _ in want])})", rp)
+    ctx.note_search("promoted-hangul-pre", n, nbad,
+                    rule="every hangul-pre request on which crate and model disagree (shortest first, capped), re-run through "
+                         "shape() on the font its support spec describes and judged by spec_render (the property); non-trivial "
+                         "= judged a violation")
+
+
 # ---------------------------------------------------------------------------------------------------
 # the planner's shaper choice: crate (ShapePlan::new on a minimal font with the named tables) vs model (planShaper)
 
@@ -1089,8 +1175,9 @@ def run(ctx):
                                 "theorem_rhs": "ok 4352:0:1 4449:0:2 4520:1:0",
                                 "reproduces_on_crate": got == "ok 4352:0:1 4449:0:2 4520:1:0"}
     ctx.correspond("hangul-plan", lines=plan_lines(shim), classify=classify_plan)
-    ctx.correspond("hangul-pre", lines=[witness] + pre_lines(ctx.rng("pre"), ctx.budget(5000, 200000)),
-                   classify=classify_pre)
+    dis = ctx.correspond("hangul-pre", lines=[witness] + pre_lines(ctx.rng("pre"), ctx.budget(5000, 200000)),
+                         classify=classify_pre)
+    promote_pre_disagreements(ctx, shim, dis, ctx.budget(60, 400))
     stride = ctx.budget(16, 1)
     offset = ctx.seed % stride
     fonts = ["all", "nosyl", "lvonly", "lvtonly", "mix3", "mix7", "nosyl-noT", "nosyl-noV"]
@@ -1106,6 +1193,9 @@ def run(ctx):
     rt = [(rand_text(rr), 1 if rr.chance(1, 6) else 0) for _ in range(ctx.budget(4000, 120000))]
     whole_text_search(ctx, shim, "random-texts", rt, ["all", "nosyl", "mix3", "all-zt", "nosyl-zt", "all-nodc"],
                       levels=(0,) if ctx.quick else (0, 1, 2))
+    # both tone marks in one run on fonts that give them different width classes (added after the seeded change C12g)
+    whole_text_search(ctx, shim, "tone-mixed", tone_mixed_texts(ctx.rng("tone-mixed"), ctx.budget(400, 12000)), TONE_FONTS,
+                      levels=(0, 1) if ctx.quick else (0, 1, 2), nextra=1 if ctx.quick else 2)
     gt = [(c, 0) for _, c in enum_cases(ctx.budget(64, 4), ctx.seed % ctx.budget(64, 4))]
     gt += [(c, 0) for _, c in old_cases(ctx.rng("gold"), ctx.budget(100, 3000))]
     gt += [([0x41] + c + [0x42], 0) for _, c in enum_cases(ctx.budget(256, 16), ctx.seed % 16)]
